@@ -663,6 +663,10 @@ type coldef struct {
 	BlockData BlockData
 	Column    wpg.Column
 	Notify    bool
+
+	// position in the log's topics of an indexed input:
+	// 1 + the number of indexed inputs declared before it
+	topic int
 }
 
 // Implements the [shovel.Integration] interface
@@ -736,15 +740,22 @@ func (ig *Integration) setCols() {
 		}
 		return wpg.Column{}
 	}
-	for _, input := range ig.Event.Selected() {
-		c := getCol(input.Column)
-		ig.Columns = append(ig.Columns, c.Name)
-		ig.coldefs = append(ig.coldefs, coldef{
-			Input:  input,
-			Column: c,
-			Notify: slices.Contains(ig.Notification.Columns, c.Name),
-		})
-		ig.numSelected++
+	var ntopics int
+	for _, top := range ig.Event.Inputs {
+		if top.Indexed {
+			ntopics++
+		}
+		for _, input := range top.Selected() {
+			c := getCol(input.Column)
+			ig.Columns = append(ig.Columns, c.Name)
+			ig.coldefs = append(ig.coldefs, coldef{
+				Input:  input,
+				Column: c,
+				Notify: slices.Contains(ig.Notification.Columns, c.Name),
+				topic:  ntopics,
+			})
+			ig.numSelected++
+		}
 	}
 	for _, bd := range ig.Block {
 		c := getCol(bd.Column)
@@ -1044,7 +1055,7 @@ func (ig Integration) processLog(rows [][]any, lwc *logWithCtx, pgmut *sync.Mute
 			for j, def := range ig.coldefs {
 				switch {
 				case def.Input.Indexed:
-					d := dbtype(def.Input.Type, lwc.l.Topics[ictr])
+					d := dbtype(def.Input.Type, lwc.l.Topics[def.topic])
 					if err := def.Input.Accept(lwc.ctx, pgmut, pg, d, &frs); err != nil {
 						return nil, fmt.Errorf("checking filter: %w", err)
 					}
@@ -1081,7 +1092,7 @@ func (ig Integration) processLog(rows [][]any, lwc *logWithCtx, pgmut *sync.Mute
 		for i, def := range ig.coldefs {
 			switch {
 			case def.Input.Indexed:
-				d := dbtype(def.Input.Type, lwc.l.Topics[1+i])
+				d := dbtype(def.Input.Type, lwc.l.Topics[def.topic])
 				if err := def.Input.Accept(lwc.ctx, pgmut, pg, d, &frs); err != nil {
 					return nil, fmt.Errorf("checking filter: %w", err)
 				}
